@@ -22,7 +22,8 @@ EXPLANATION = (
     "default_factory; (R4) runner, template and executor classes assign to self only in __init__, no module-level mutable container under runners/ "
     "is mutated by any function, and the ContextVar limiter is the only cross-call channel; (R5) who-may-copy: deepcopy is called only by the two "
     "documented helpers (signature defaults; explicit map_over clone), copy.copy only on a derivation's receiver, and bind() stores the caller's objects "
-    "themselves."
+    "themselves; (R6) a mapping graph node leaves the inner graph's own bound values out of the inputs of the nested map, so per-item cloning can "
+    "never touch them."
 )
 NOT_DECIDED = "Equality of results across repeated/concurrent runs as such; behaviour of user objects that refuse deepcopy (reported as GraphConfigError by design)."
 
@@ -35,6 +36,7 @@ def run(ctx) -> None:
     rep.rule("C18.R3", "each run starts from a fresh GraphState with per-instance containers", floor=5)
     rep.rule("C18.R4", "no per-run state on runner/executor objects or module-level containers", floor=8)
     rep.rule("C18.R5", "values are copied only by the two documented helpers; bind stores the very object", floor=3)
+    rep.rule("C18.R6", "a mapping graph node does not hand the inner graph's own bound values to the clone path", floor=2)
 
     # ---- R1 ---------------------------------------------------------------------
     ri = db.func("runners._shared.helpers._resolve_input")
@@ -128,6 +130,30 @@ def run(ctx) -> None:
     stores = [n for n in walk_local(bind.node) if isinstance(n, ast.Assign) and any(isinstance(t, ast.Attribute) and t.attr == "_bound" for t in n.targets)]
     ok = len(stores) == 1 and isinstance(stores[0].value, ast.Dict) and any(k is None and src(v) == "values" for k, v in zip(stores[0].value.keys, stores[0].value.values)) and not any(isinstance(x, ast.Call) for x in ast.walk(stores[0].value))
     rep.add("C18.R5", f"{bind.qname}:stores-the-object", ok, bind.loc(), "bind() stores the caller's objects themselves ({**old, **values})" if ok else "bind() transforms or copies the bound values")
+
+    # ---- R6 ---------------------------------------------------------------------
+    from sa.pattern import solve
+
+    run_map = set(template_methods(db, "map"))
+    for q in ("runners.sync.executors.graph_node.SyncGraphNodeExecutor.__call__", "runners.async_.executors.graph_node.AsyncGraphNodeExecutor.__call__"):
+        f = db.func(q)
+        for c, cal in db.callees(f):
+            if cal.func not in run_map:
+                continue
+            a1 = c.args[1] if len(c.args) > 1 else None
+            passes_clone = any(k.arg == "clone" for k in c.keywords)
+            ok = False
+            if isinstance(a1, ast.Name):
+                for d in db.local_defs(f).get(a1.id, []):
+                    v = getattr(d, "value", None)
+                    if isinstance(v, ast.DictComp) and any(solve(["_K in _B and _V is _B[_K]"], i) or solve(["_K in _B", "_V is _B[_K]"], i) for i in v.generators[0].ifs):
+                        # _B must be the inner graph's bound mapping
+                        for nm, ds in db.local_defs(f).items():
+                            if any(isinstance(x, ast.Assign) and src(x.value).endswith(".inputs.bound") and ("node.graph" in src(x.value) or "node._graph" in src(x.value)) for x in ds) and any(isinstance(y, ast.Name) and y.id == nm for i in v.generators[0].ifs for y in ast.walk(i)):
+                                ok = True
+            if not passes_clone:
+                ok = True
+            rep.add("C18.R6", f"{f.qname}:map-inputs", ok, f"{f.module.rel}:{c.lineno}", "values that are the inner graph's own bindings are left out of the nested map's inputs (they are resolved by identity inside each item run)" if ok else "the nested map receives the inner graph's bound values as broadcast inputs together with the clone setting: clone=True deep-copies objects that were bound precisely to be shared")
 
     # ---- R2 ---------------------------------------------------------------------
     ni = db.func("runners._shared.input_normalization.normalize_inputs")
@@ -258,5 +284,6 @@ VARIANTS = [
     Variant("runner-keeps-last-state", SR, replace_once("        state = initialize_state(graph, values)\n        active_nodes = compute_active_node_set(graph)\n\n        for _ in range(max_iterations):", "        state = initialize_state(graph, values)\n        self._last_state = state\n        active_nodes = compute_active_node_set(graph)\n\n        for _ in range(max_iterations):"), {"C18.R4"}),
     Variant("module-level-run-registry", SR, lambda s: s.replace("DEFAULT_MAX_ITERATIONS = 1000\n", "DEFAULT_MAX_ITERATIONS = 1000\n_RUNS: dict = {}\n", 1).replace("        state = initialize_state(graph, values)\n        active_nodes = compute_active_node_set(graph)\n\n        for _ in range(max_iterations):", "        state = initialize_state(graph, values)\n        _RUNS[run_id] = state\n        active_nodes = compute_active_node_set(graph)\n\n        for _ in range(max_iterations):"), {"C18.R4"}),
     Variant("bind-deepcopies", "src/hypergraph/graph/core.py", lambda s_: s_.replace("        new_graph._bound = {**self._bound, **values}", "        import copy as _copy\n\n        new_graph._bound = {**self._bound, **{k: _copy.deepcopy(v) for k, v in values.items()}}"), {"C18.R5"}),
+    Variant("map-passes-inner-bound-to-clone-path", "src/hypergraph/runners/sync/executors/graph_node.py", replace_once("                node.graph,\n                map_inputs,", "                node.graph,\n                inner_inputs,"), {"C18.R6"}),
     Variant("twin-resolver-inverted-test", HP, replace_once("    if source == ValueSource.DEFAULT:\n        return _safe_deepcopy(value, param_name=param)\n\n    # All other sources: return as-is (no copying)\n    return value", "    if source != ValueSource.DEFAULT:\n        return value\n    return _safe_deepcopy(value, param_name=param)"), set()),
 ]
